@@ -384,11 +384,13 @@ func (e *dirEnv) put(p string, data []byte, perm fs.FileMode) error {
 	}
 	return err
 }
-func (e *dirEnv) remove(p string) error { return os.Remove(filepath.Join(e.dir, filepath.FromSlash(p))) }
-func (e *dirEnv) fsys() scalibrfs.FS    { return scalibrfs.DirFS(e.dir) }
-func (e *dirEnv) root() string          { return e.dir }
-func (e *dirEnv) reset()                {}
-func (e *dirEnv) close()                { _ = os.RemoveAll(e.dir) }
+func (e *dirEnv) remove(p string) error {
+	return os.Remove(filepath.Join(e.dir, filepath.FromSlash(p)))
+}
+func (e *dirEnv) fsys() scalibrfs.FS { return scalibrfs.DirFS(e.dir) }
+func (e *dirEnv) root() string       { return e.dir }
+func (e *dirEnv) reset()             {}
+func (e *dirEnv) close()             { _ = os.RemoveAll(e.dir) }
 
 func conflicts(a, b string) bool {
 	return a == b || strings.HasPrefix(a, b+"/") || strings.HasPrefix(b, a+"/")
